@@ -17,10 +17,11 @@ def _is_numeric(x) -> bool:
 
 def _is_intlike(x) -> bool:
     if isinstance(x, numbers.Integral):
-        return True
+        return abs(x) < 2**63
     if isinstance(x, (numbers.Real, se.Basic)):
         f = float(x)
-        return math.isnan(f) or int(f) == f
+        # Values outside the int64 range cannot be cast to int without overflowing
+        return math.isnan(f) or (math.isfinite(f) and abs(f) < 2**63 and int(f) == f)
     return False
 
 
